@@ -362,6 +362,14 @@ class GitStore(Store):
                 removed.remove(name)
             if name in self._fname_to_uid and self._fname_to_uid[name][0] == etag:
                 continue
+            if name in self._fname_to_uid:
+                # The file changed; forget the UID it used to carry.
+                old_uid = self._fname_to_uid[name][1]
+                if (
+                    old_uid is not None
+                    and self._uid_to_fname.get(old_uid, (None,))[0] == name
+                ):
+                    del self._uid_to_fname[old_uid]
             blob = self.repo.object_store[sha]
             fi = open_by_extension(blob.chunked, name, self.extra_file_handlers)
             try:
